@@ -206,6 +206,13 @@ func (c *checker) CheckFunctions(t *parser.Thrift) (warns []string, err error) {
 				err = fmt.Errorf("[IDL grammar error] %s.%s: oneway methods can't throw exceptions from file %s", svc.Name, f.Name, t.Filename)
 				return
 			}
+			// the argument list and the throws list each become the fields of a generated struct
+			if err = checkFieldList(f.Arguments, "argument", svc.Name, f.Name, t.Filename); err != nil {
+				return
+			}
+			if err = checkFieldList(f.Throws, "exception", svc.Name, f.Name, t.Filename); err != nil {
+				return
+			}
 			for _, a := range f.Arguments {
 				if a.Requiredness == parser.FieldType_Optional {
 					argOpt = t.Filename + ": optional keyword is ignored in argument lists."
@@ -237,4 +244,21 @@ func (c *checker) CheckFunctions(t *parser.Thrift) (warns []string, err error) {
 		warns = append(warns, argOpt)
 	}
 	return
+}
+
+// checkFieldList reports a repeated ID or name in the argument list or the throws list of a function.
+func checkFieldList(fields []*parser.Field, kind, svc, fn, filename string) error {
+	ids := make(map[int32]bool)
+	names := make(map[string]bool)
+	for _, a := range fields {
+		if ids[a.ID] {
+			return fmt.Errorf("[IDL grammar error] duplicated %s ID %d in %s.%s from file %s", kind, a.ID, svc, fn, filename)
+		}
+		if names[a.Name] {
+			return fmt.Errorf("[IDL grammar error] duplicated %s name %q in %s.%s from file %s", kind, a.Name, svc, fn, filename)
+		}
+		ids[a.ID] = true
+		names[a.Name] = true
+	}
+	return nil
 }
